@@ -371,7 +371,7 @@ class WellsSuite:
             ops = {}
             for dev, cls in (("evo", robotools.EvoWorklist), ("fluent", robotools.FluentWorklist)):
                 for opn in ("aspirate", "dispense", "transfer_src", "transfer_dst", "transfer_bcast_dst", "transfer_bcast_src",
-                            "aspirate_second", "distribute", "distribute_second"):
+                            "aspirate_second", "distribute", "distribute_second", "aspirate_zero", "dispense_zero"):
                     wl = cls()
                     lw2 = self._mk(case)
                     other = robotools.Labware("O", 2, 2, min_volume=0, max_volume=1000, initial_volumes=100)
@@ -395,6 +395,11 @@ class WellsSuite:
                         elif opn == "aspirate_second":
                             lw2._volumes[:] = 5
                             wl.aspirate(lw2, ["A01", w], 1)
+                        elif opn == "aspirate_zero":  # the unknown id carries a zero volume
+                            lw2._volumes[:] = 5
+                            wl.aspirate(lw2, ["A01", w], [1, 0])
+                        elif opn == "dispense_zero":
+                            wl.dispense(lw2, [w, "A01"], [0, 1])
                         elif opn == "distribute_second":
                             wl.distribute(tr, 0, lw2, ["A01", w], volume=1)
                         else:
@@ -909,6 +914,10 @@ class SelSuite:
             if rng.random() < 0.1 and a["shape"] == "list":
                 a["v"] = a["v"] + [rng.choice([wid(r, 0), wid(0, c), "A1", "x"])]
             cases.append({"k": "arr", "rows": r, "cols": c, "wells": a})
+        # the last row letter and the last column of the extreme geometries
+        for r, c in ((26, 1), (26, 12), (25, 3), (1, 24), (16, 24), (26, 24)):
+            for ws in ([wid(r - 1, 0)], [wid(r - 1, c - 1), wid(0, 0)], [wid(r - 1, c - 1), wid(max(0, r - 2), c - 1), wid(0, c - 1)]):
+                cases.append({"k": "arr", "rows": r, "cols": c, "wells": {"shape": "list", "v": ws}})
         for n in list(range(0, 300)) + [4095, 4096, 65535, 1 << 20]:
             cases.append({"k": "hex", "n": n})
         return cases
